@@ -9,6 +9,7 @@
 //	                               the real code at critical-section granularity, with P-level events per edge
 //	race    OUT.ndjson SEED H G K  free-running goroutines, call/ret history for linearizability by TLC
 //	timeout OUT.ndjson SEED N      50 ms reassembly timeout: fragments, sleep 120 ms, the rest
+//	steps / gatepath IN OUT        re-run one recorded sequence / gate schedule (vcheck --replay)
 //
 // Every call of Process runs under recover(); a panic is reported, never fatal.
 package main
@@ -204,10 +205,21 @@ func graph(path string) {
 	}
 	calls, delivered, panics, crashIncons, drifts := 0, 0, 0, 0, 0
 	var sample []interface{}
+	nprop, ndrift := 0, 0
 	add := func(pi, si int, kind, what string, want, got interface{}) {
-		if len(res.Mismatches) < 60 {
-			res.Mismatches = append(res.Mismatches, vh.Mismatch{Path: pi, Step: si, Kind: kind, What: what, Want: want, Got: got})
+		// separate caps: I-level drift must not crowd out P-level mismatches
+		if kind == "drift" {
+			ndrift++
+			if ndrift > 6 {
+				return
+			}
+		} else {
+			nprop++
+			if nprop > 40 {
+				return
+			}
 		}
+		res.Mismatches = append(res.Mismatches, vh.Mismatch{Path: pi, Step: si, Kind: kind, What: what, Want: want, Got: got})
 	}
 	for pi, p := range g.Paths {
 		for _, v := range g.Variants {
@@ -307,6 +319,7 @@ func graph(path string) {
 	res.Extra["panics"] = panics
 	res.Extra["crash_on_inconsistent"] = crashIncons
 	res.Extra["drifts"] = drifts
+	res.Extra["property_mismatches"] = nprop
 	res.Extra["samples"] = sample
 	vh.Emit(res)
 }
@@ -673,6 +686,71 @@ func gateMode(path string) {
 	vh.Emit(g)
 }
 
+// ---------------------------------------------------------------- replay of recorded cases
+
+type stepsIn struct {
+	V     variant `json:"variant"`
+	High  int     `json:"high"`
+	Low   int     `json:"low"`
+	Steps []frag  `json:"steps"`
+}
+
+// stepsMode runs one recorded sequential fragment sequence and logs it.
+func stepsMode(in, out string) {
+	var si stepsIn
+	vh.LoadJSON(in, &si)
+	hi, lo := bigMem, bigMem/2
+	mode := "strict"
+	if si.High > 0 && si.High < 99 {
+		hi, lo = si.High*si.V.Scale, si.Low*si.V.Scale
+		mode = "safety"
+	}
+	f := fragmentation.NewFragmentation(hi, lo, longTimeout)
+	tr := vh.NewTrace(out)
+	tr.Log(map[string]interface{}{"ev": "reset", "mode": mode, "variant": si.V.Name})
+	for _, fr := range si.Steps {
+		ev, first, last, vv := callEv(0, fr, si.V, 0)
+		tr.Log(ev)
+		res := call(f, keyID(fr.K), first, last, fr.More, vv)
+		tr.Log(retEv(0, res))
+		if res.Panic != "" {
+			break
+		}
+	}
+	tr.Close()
+}
+
+type gatePathIn struct {
+	scenario
+	Moves []gate.Move `json:"moves"`
+}
+
+// gatePath replays one recorded schedule under the gate scheduler.
+func gatePath(in, out string) {
+	var gp gatePathIn
+	vh.LoadJSON(in, &gp)
+	s := newGsys(&gp.scenario)
+	tr := vh.NewTrace(out)
+	tr.Log(map[string]interface{}{"ev": "reset", "mode": "strict"})
+	for _, m := range gp.Moves {
+		ok := false
+		for _, e := range s.Enabled() {
+			if e == m {
+				ok = true
+			}
+		}
+		if !ok {
+			break // the schedule no longer applies (e.g. an operation ended early in a panic)
+		}
+		for _, e := range s.Do(m) {
+			tr.Log(e)
+		}
+	}
+	s.Close()
+	fragmentation.VerifSetHook(nil)
+	tr.Close()
+}
+
 func atoi(s string) int {
 	n, err := strconv.Atoi(s)
 	if err != nil {
@@ -697,6 +775,10 @@ func main() {
 		race(os.Args[2], int64(atoi(os.Args[3])), atoi(os.Args[4]), atoi(os.Args[5]), atoi(os.Args[6]))
 	case "timeout":
 		timeoutMode(os.Args[2], int64(atoi(os.Args[3])), atoi(os.Args[4]))
+	case "steps":
+		stepsMode(os.Args[2], os.Args[3])
+	case "gatepath":
+		gatePath(os.Args[2], os.Args[3])
 	default:
 		vh.Fatal("unknown mode %s", os.Args[1])
 	}
